@@ -464,9 +464,41 @@ class ProgramUnit(Scope):
             if intf_map:
                 obj.spec = Transformer(intf_map).visit(obj.spec)
 
+        # The type definitions in the spec have been rebuilt: let the type names and all
+        # variables of these types in the new object refer to the new definitions
+        if obj.spec and self.spec:
+            old_typedefs = CaseInsensitiveDict(
+                (typedef.name, typedef) for typedef in FindNodes(ir.TypeDef).visit(self.spec)
+            )
+            typedef_map = {
+                id(old_typedefs[typedef.name]): typedef
+                for typedef in FindNodes(ir.TypeDef).visit(obj.spec)
+                if typedef.name in old_typedefs and old_typedefs[typedef.name] is not typedef
+            }
+            if typedef_map:
+                obj._update_typedef_references(typedef_map)
+
         obj.register_in_parent_scope()
 
         return obj
+
+    def _update_typedef_references(self, typedef_map):
+        """
+        Re-point all symbol table entries in this unit and its contained scopes,
+        which refer to one of the :any:`TypeDef` in :data:`typedef_map` (keyed
+        by ``id``), to the corresponding new type definition
+        """
+        scopes = [self]
+        for section in (self.spec, getattr(self, 'body', None)):
+            if section is not None:
+                scopes += [node for node in FindNodes(ir.Node).visit(section) if isinstance(node, Scope)]
+        for scope in scopes:
+            for name, attrs in list(scope.symbol_attrs.items()):
+                dtype = attrs.dtype
+                if isinstance(dtype, DerivedType) and id(dtype.typedef) in typedef_map:
+                    scope.symbol_attrs[name] = attrs.clone(dtype=typedef_map[id(dtype.typedef)].dtype)
+        for routine in self.subroutines:
+            routine._update_typedef_references(typedef_map)
 
     @property
     def typedefs(self):
